@@ -890,7 +890,7 @@ namespace avel {
 
     [[nodiscard]]
     AVEL_FINL vec8x32f fdim(vec8x32f x, vec8x32f y) {
-        return avel::max(x - y, vec8x32f{0.0f});
+        return blend(x <= y, vec8x32f{0.0f}, x - y);
     }
 
     [[nodiscard]]
